@@ -46,6 +46,11 @@ func vC09Window(wholeSeconds bool) {
 		verifAssume(expire >= 0 && expire <= 10*365*24*time.Hour)
 	}
 	c := &http.Cookie{Name: name, Value: signed}
+	if d := int64(age) - int64(expire/time.Second); (d >= -2 && d <= 2) || (age >= -302 && age <= -298) {
+		// within two seconds of a window edge the verdict depends on the sub-second part of the
+		// wall clock, which a native run cannot be steered to: explored and checked, not sampled
+		verifIdealOnly()
+	}
 	got, t, ok := Validate(c, vSeed, expire)
 
 	issuedSec := time.Unix(created.Unix(), 0)
